@@ -513,7 +513,11 @@ func (e *Executor) loadDependencyOutput(
 
 		targetResult, err := e.targetCache.Load(ctx, localDep.ChangeHash)
 		if err != nil {
-			// We cannot even get the target cache: re-run immediately
+			// We cannot even get the target cache: re-run the dependency, which first needs
+			// the outputs of its own dependencies (they were not loaded on its cache hit)
+			if recursiveLoadErr := e.LoadDependencyOutputs(ctx, localDep, update); recursiveLoadErr != nil {
+				return recursiveLoadErr
+			}
 			return rerunDependency()
 		}
 
